@@ -222,6 +222,23 @@ func c19MakeEntry(r *fw.Rng, e int, variant int) c19Entry {
 			call: func(w io.Writer) error { return updown.List(strings.NewReader(refTxt), strings.NewReader(aln), w) }}
 	case 12, 13, 14:
 		in := gen.MakeUpdown(r, gen.UpdownProfile{MaxQueries: 4, MaxTargets: 10, PAmbTract: 0.2, MultiHit: true})
+		if variant%3 == 2 {
+			// names with characters that are special in a CSV (legal in a FASTA header): whatever the
+			// writer does with them, a failed write of such a row is a failed write
+			nm := func(s string, k int) string { return []string{s + ",1", "\"" + s + "\"", s + ";a|b", s + ",x\"y"}[k%4] }
+			for i := range in.Queries {
+				if i%2 == 0 {
+					in.Queries[i].ID = nm(in.Queries[i].ID, i/2)
+					in.Queries[i].Desc = in.Queries[i].ID
+				}
+			}
+			for i := range in.Targets {
+				if i%2 == 1 || i == len(in.Targets)-1 {
+					in.Targets[i].ID = nm(in.Targets[i].ID, i)
+					in.Targets[i].Desc = in.Targets[i].ID
+				}
+			}
+		}
 		refTxt, qTxt, tTxt := gen.RefFasta("root", in.Ref, 0), gen.RenderFasta(in.Queries, 0), gen.RenderFasta(in.Targets, 0)
 		table := e >= 13
 		push := 0
